@@ -77,6 +77,10 @@ class MemoryManager:
         """Check if a register is in use."""
         return reg in self._active_registers
 
+    def get_active_registers(self) -> Set[operand.Register]:
+        """Get all registers that are in use."""
+        return set(self._active_registers)
+
     def add_active_register(self, reg: operand.Register) -> None:
         """Mark a register as 'in use'."""
         if reg in self._active_registers:
